@@ -463,6 +463,8 @@ class HubRun:
                     break
                 continue
             s = choose(cands, step)
+            if s is None:           # the chooser itself acted (a kill taken from a model behaviour) and nobody can move now
+                continue
             kill = kill_plan is not None and kill_plan.get(s.sid) == s.steps
             call = dict(s.pending)
             self.grant(s, kill=kill)
